@@ -136,7 +136,7 @@ pub struct Stats {
     pub nodes: u64,
     pub max_steps: usize,
     pub max_tasks: u64,
-    pub outcomes: BTreeMap<String, (u64, String)>,
+    pub outcomes: BTreeMap<String, (u64, String, Vec<usize>)>,
     pub violations: Agg,
     pub capped: bool,
 }
@@ -166,10 +166,10 @@ pub fn explore(subject: &dyn Subject, dir: &Path, bound: usize, reduce: bool, sh
             if ex.deadlock || ex.horizon {
                 let class = if ex.deadlock { "deadlock" } else { "step-horizon-exceeded" };
                 st.violations.viol(class, || json!({"subject": subject.describe(), "choices": ex.choices, "schedule": sched}));
-                st.outcomes.entry(class.to_string()).or_insert((0, sched.clone())).0 += 1;
+                st.outcomes.entry(class.to_string()).or_insert((0, sched.clone(), ex.choices.clone())).0 += 1;
             } else {
                 let obs = subject.observe(dir, &ex.result);
-                st.outcomes.entry(obs.key.clone()).or_insert((0, sched.clone())).0 += 1;
+                st.outcomes.entry(obs.key.clone()).or_insert((0, sched.clone(), ex.choices.clone())).0 += 1;
                 if let Some((class, detail)) = obs.violation {
                     // replay twice before reporting: the same schedule must give the same observation
                     let again = run_once(subject, dir, &ex.choices, reduce)?;
@@ -210,7 +210,7 @@ pub fn stats_json(st: &Stats) -> Value {
     json!({
         "schedules": st.schedules, "steps": st.steps, "nodes": st.nodes, "max_steps": st.max_steps, "max_tasks": st.max_tasks,
         "capped": st.capped,
-        "outcomes": st.outcomes.iter().map(|(k, v)| json!({"key": k, "count": v.0, "example_schedule": v.1})).collect::<Vec<_>>(),
+        "outcomes": st.outcomes.iter().map(|(k, v)| json!({"key": k, "count": v.0, "example_schedule": v.1, "example_choices": v.2})).collect::<Vec<_>>(),
         "violations": st.violations.classes.iter().map(|(k, v)| json!({"class": k, "count": v.count, "examples": v.examples})).collect::<Vec<_>>(),
     })
 }
@@ -259,7 +259,7 @@ pub fn explore_parallel(subject_spec: &Value, bound: usize, reduce: bool, n: usi
             let key = o["key"].as_str().unwrap();
             let e = &mut merged["outcomes"][key];
             if e.is_null() {
-                *e = json!({"count": 0u64, "example_schedule": o["example_schedule"]});
+                *e = json!({"count": 0u64, "example_schedule": o["example_schedule"], "example_choices": o["example_choices"]});
             }
             e["count"] = json!(e["count"].as_u64().unwrap() + o["count"].as_u64().unwrap());
         }
